@@ -54,6 +54,10 @@ if ok:
     meta['demo_dest'] = dest
     meta['confirmed_by_me'] = {k: res[k] for k in ['applies', 'builds', 'suite_passes_with_patch', 'demo_fails_with_patch', 'demo_passes_without_patch']}
     meta['what_i_ran'] = "tools/seedverify.py in the scratch worktree: git apply; go build ./...; go test -vet=off -count=1 -p 1 ./... (with patch); demonstration with patch (fails) and after git apply -R (passes)"
+    if os.environ.get('SKIP_CHECKS'):
+        # confirmation only; tools/reseed.py fills checks_fired later
+        json.dump(meta, open(os.path.join(dst, 'meta.json'), 'w'), indent=1)
+        sys.exit(0)
     c = subprocess.run(['python3', '/verif/tools/seedcheck.py', patch], capture_output=True, text=True)
     meta['checks_fired'] = c.stdout.strip().splitlines()
     json.dump(meta, open(os.path.join(dst, 'meta.json'), 'w'), indent=1)
